@@ -117,10 +117,12 @@ Mon_Monotone(r, out, out1) == (r >= 1 /\ out # ErrVal /\ out1 # ErrVal) => out <
 
 \* a round yields its exact time, or the documented error value; never a wrapped or
 \* negative time.  The error value is allowed from the coded (conservative) guard on
-\* and demanded where the true time does not fit.
+\* and demanded where the true time is beyond the documented limit ("TimeOfRound will
+\* stay below this buffer": a time inside the reserved buffer wraps as soon as time.Unix
+\* converts it).
 Mon_NoWrap(pp, gg, r, out) ==
   \/ r = 0 /\ out = gg
-  \/ r >= 1 /\ out = TimeOf(pp, gg, r) /\ out <= MaxI
+  \/ r >= 1 /\ out = TimeOf(pp, gg, r) /\ out <= ErrVal
   \/ r >= 1 /\ out = ErrVal /\ (r >= Guard(pp) \/ TimeOf(pp, gg, r) > ErrVal)
 
 -----------------------------------------------------------------------------
